@@ -208,3 +208,49 @@ func VP_C08_ws_coalesced() {
 	vpAssert(len(got) == len(want), "every-coalesced-packet-is-processed")
 	vpAssert(vpEqBytes(got, want), "coalesced-payloads-reach-the-host-in-order")
 }
+
+//vp:property C08 C10
+//vp:set reads 2 2
+//vp:set n 10 13
+//vp:set budget 300 1200
+//vp:set maxalloc 40 40
+//vp:bounds an ARBITRARY client byte stream delivered in `reads` transport reads of 0..n arbitrary bytes each, then end of stream; Tunnel.Read is called until it fails. Reference framer written from the property: at offset off, a packet is the next LE32(off+4) bytes if that is >= 8 and wholly present
+//vp:reach delivered ended
+func VP_C08_arbitrary_stream() {
+	nr := vpParam("reads")
+	var segs [][]byte
+	var stream []byte
+	for i := 0; i < nr; i++ {
+		b := vpBytes("read"+strconv.Itoa(i), vpParam("n"))
+		segs = append(segs, b)
+		stream = append(stream, b...)
+	}
+	tr := &vpTransport{in: segs}
+	tun := &Tunnel{transportIn: tr, transportOut: tr}
+	off := 0
+	for i := 0; i <= len(stream)/8+1; i++ {
+		pt, n, msg, err := tun.Read()
+		// what the reference framer expects at off
+		have := len(stream) - off
+		var size int
+		if have >= 8 {
+			size = int(vpLE32(stream, off+4))
+		}
+		framed := have >= 8 && size >= 8 && size <= have
+		if err != nil {
+			vpReach("ended")
+			vpAssert(!framed, "a-wholly-present-well-framed-packet-is-delivered")
+			return
+		}
+		vpReach("delivered")
+		vpAssert(framed, "only-well-framed-wholly-present-bytes-are-delivered-as-a-packet")
+		if !framed {
+			return
+		}
+		vpAssert(pt == int(vpLE16(stream, off)) && n == size && len(msg) == size-8, "delivered-packet-is-what-the-header-at-this-offset-describes")
+		if len(msg) == size-8 {
+			vpAssert(vpEqBytes(msg, stream[off+8:off+size]), "delivered-body-is-the-stream-bytes-after-the-header")
+		}
+		off += size
+	}
+}
